@@ -52,7 +52,8 @@ def _win(name, lo, hi):
 
 
 # single-byte corruptions: P0 = PH+UH; P1 = SRC without callouts, EH, MT; P2 = callouts + UD; P3 = LP, ED, DH, ZZ
-CORR = _win("P0", 0, 72) + _win("P1", 72, LENS["P1"]) + _win("P2", 152, LENS["P2"]) + _win("P3", 72, LENS["P3"])
+CORR = _win("P0", 0, 72) + _win("P1", 72, LENS["P1"]) + _win("P2", 152, LENS["P2"]) + _win("P3", 72, LENS["P3"]) \
+    + _win("P4", LENS["P4"] - 64, LENS["P4"])          # the built-in JSON / text user-data sections
 CORR_OPT = ["P0:0-8", "P0:48-56", "P1:72-80", "P2:152-156", "P2:156-157", "P3:72-80", "P3:80-88"]
 CORR = [c for c in CORR if c != "P2:152-160"] + ["P2:152-156", "P2:156-157", "P2:157-158", "P2:158-159", "P2:159-160"]
 QUICK_CORR = ["P0:48-56", "P1:72-80", "P2:152-156", "P2:156-157", "P2:157-158", "P3:80-88", "P3:96-104"]
@@ -73,7 +74,7 @@ BOUNDS = {"short": "all byte strings of length <= 24; 'PH' + 2 symbolic length b
                         "covering every section type; both exit_on_error values",
           "corruption": "every single-byte corruption (offset symbolic per 8-byte window, replacement byte symbolic over "
                         "all 256 values) of PH+UH, SRC without and with callouts, EH, MT, UD, LP, ED and hexdump-only "
-                        "sections (64 windows)", "interpreter": "python3-vt and python3-vt -O (all but 57 corruption windows in both)",
+                        "sections (72 windows)", "interpreter": "python3-vt and python3-vt -O (all but 57 corruption windows in both)",
           "progress": "each decode runs under a 20 s (symbolic) / 10 s (replay) deadline"}
 ASSUMPTIONS = ["json.dumps/prettyPrint replaced by the FakeJson token (M7)", "print replaced by a recorder; open() in "
                "h_cli replaced by an in-memory file (E1)", "wall-clock promptness is replaced by the deadline"]
